@@ -23,13 +23,17 @@ type c16Params struct {
 	LenB   int   `json:"len_b"`
 	Stride int   `json:"stride"` // position stride (1 = every position)
 	Repair int   `json:"repair"` // repair every n-th edit
+	// Positions, if set, replaces the stride walk by an explicit list.
+	Positions []int `json:"positions,omitempty"`
+	// Content class of file A ("random" or "crctwins").
+	Content string `json:"content,omitempty"`
 }
 
 func init() {
 	register(&c16{base{
 		id:    "C16",
 		level: lvlExploration,
-		rule: "each case protects two files of high-entropy content (A is edited, B is a bystander) with one slice size and walks the complete edit grid on A: insertion and deletion at EVERY position 0..len (stride 1 for the grid slice sizes) x lengths {1,2,3,S-1,S,S+1,2S+1}, plus A's content under B's name, B's under A's and both swapped. After each edit the real par2.Verify must count at least the untouched slices (known by construction from the segment model and cross-checked against the closed formula for touched slices) and at most the slices a brute-force finder locates; every n-th edit is also repaired with exactly max(t,1) recovery blocks left. An edit whose random content accidentally contains a duplicate window that makes an independent skip-on-hit scan miss a witness is counted as coincidence, not judged. A key is (slice size, file length, edit kind, position, length)",
+		rule: "each case protects two files of high-entropy content (half of the grids with slices that are CRC-32 twins of their neighbour: equal CRC, different bytes) (A is edited, B is a bystander) with one slice size and walks the complete edit grid on A: insertion and deletion at EVERY position 0..len (stride 1 for the grid slice sizes) x lengths {1,2,3,S-1,S,S+1,2S+1}, plus A's content under B's name, B's under A's and both swapped. After each edit the real par2.Verify must count at least the untouched slices (known by construction from the segment model and cross-checked against the closed formula for touched slices) and at most the slices a brute-force finder locates; every n-th edit is also repaired with exactly max(t,1) recovery blocks left. An edit whose random content accidentally contains a duplicate window that makes an independent skip-on-hit scan miss a witness is counted as coincidence, not judged. A key is (slice size, file length, edit kind, position, length)",
 		assumptions: append([]string{"content is random, so slices are unique up to accidental 4-byte coincidences, which are detected with the brute-force match table and set aside"}, commonAssumptions...),
 		opts:        core.WorkerOpts{CrashIsViolation: true, WallSeconds: 2400, Exhaustive: true, Extra: map[string]interface{}{"exhaustive_subspace": "for each listed (slice size, file length) with stride 1: every edit position 0..len x the listed lengths, insertions and deletions"}},
 	}})
@@ -52,8 +56,33 @@ func (c *c16) Cases(tier string, seed int64) []core.Case {
 			if tier == "thorough" {
 				rep = 1
 			}
-			cs = append(cs, core.MkCase(fmt.Sprintf("grid-s%d-n%d", s, n), c16Params{Seed: r.Int63(), Slice: s, LenA: n, LenB: s + 1 + r.Intn(2*s), Stride: 1, Repair: rep}))
+			content := "random"
+			if s >= 8 && !mult {
+				// distinct slices that share their CRC-32 with a neighbour
+				content = "crctwins"
+			}
+			cs = append(cs, core.MkCase(fmt.Sprintf("grid-s%d-n%d-%s", s, n, content), c16Params{Seed: r.Int63(), Slice: s, LenA: n, LenB: s + 1 + r.Intn(2*s), Stride: 1, Repair: rep, Content: content}))
 		}
+	}
+	// files larger than 16 KiB (the first-16-KiB hash boundary): edits around
+	// offset 16384 and in the tail
+	for _, s := range []int{100, 2000, 4096} {
+		n := 16384 + 3*s + 1 + r.Intn(s)
+		var pos []int
+		for _, base := range []int{0, s, 16384 - s, 16384, 16384 + s, n - s, n} {
+			for d := -1; d <= 1; d++ {
+				if base+d >= 0 && base+d <= n {
+					pos = append(pos, base+d)
+				}
+			}
+		}
+		for k := 0; k < 6; k++ {
+			pos = append(pos, 16384+r.Intn(n-16384))
+		}
+		for q := (16384/s + 1) * s; q <= n; q += s {
+			pos = append(pos, q)
+		}
+		cs = append(cs, core.MkCase(fmt.Sprintf("bigfile-s%d-n%d", s, n), c16Params{Seed: r.Int63(), Slice: s, LenA: n, LenB: s + 1 + r.Intn(s), Stride: 1, Repair: 3, Positions: pos}))
 	}
 	// other slice sizes: structured and seeded, sampled positions
 	extra := []int{24, 28, 32, 36, 128, 252, 256, 260, 508, 512, 516, 1020, 1024, 1028, 2000, 2048, 2052}
@@ -109,7 +138,7 @@ func (c *c16) Run(cs core.Case) core.Result {
 	rng := rand.New(rand.NewSource(p.Seed))
 	s := p.Slice
 	set := scen.Set{SliceSize: s, Blocks: 7, Content: "random", Files: []scen.File{
-		{Name: "A.bin", Data: scen.GenData(rng, "random", p.LenA, s)},
+		{Name: "A.bin", Data: scen.GenData(rng, map[bool]string{true: p.Content, false: "random"}[p.Content != ""], p.LenA, s)},
 		{Name: "sub/B.bin", Data: scen.GenData(rng, "random", p.LenB, s)},
 	}}
 	// History: the same process first scans a damaged set with a DIFFERENT
@@ -249,7 +278,15 @@ func (c *c16) Run(cs core.Case) core.Result {
 			}
 		}
 	}
-	for pos := 0; pos <= p.LenA; pos += p.Stride {
+	var positions []int
+	if p.Positions != nil {
+		positions = p.Positions
+	} else {
+		for pos := 0; pos <= p.LenA; pos += p.Stride {
+			positions = append(positions, pos)
+		}
+	}
+	for _, pos := range positions {
 		for _, l := range lens {
 			if l <= 0 {
 				continue
@@ -265,6 +302,7 @@ func (c *c16) Run(cs core.Case) core.Result {
 		}
 	}
 	// content under another protected name
+	judge("B-content-appended-to-A", 0, 0, []scen.Op{{Kind: "append", A: 0, G: set.Files[1].Data}}, nil)
 	judge("A-under-B", 0, 0, []scen.Op{{Kind: "copy", A: 0, B: 1}}, nil)
 	judge("B-under-A", 0, 0, []scen.Op{{Kind: "copy", A: 1, B: 0}}, nil)
 	judge("swap", 0, 0, []scen.Op{{Kind: "swap", A: 0, B: 1}}, nil)
